@@ -65,6 +65,13 @@ _ENGINE_ASSUME = ["the event stream's inbox order is the broadcast order (C01); 
                   "a subscriber stopping between the reachability test and the forward is a race outside the sequential model (it costs one dead letter, then the subscriber is dropped)"]
 
 PROPS = {
+    "C11": dict(lean_modules=["HW.Props.C11"],
+                streams=[dict(name="resp", pkg="actor", test="TestVerifResp", shrink_key="ops", timeout=1500)],
+                rule="resp: seeded random histories (2-10 ops) of Request / reply to any outstanding or finished request (zero, one, several replies) / Result with a short timeout on the real Engine, Registry and Response; "
+                     "each reply is sent from its own goroutine with a watchdog (a blocked sender is an observation); plus a draw of 300k (thorough: 1.5M) fresh response ids checked for collisions; "
+                     "non-trivial = >= 3 ops; distinct = distinct inputs",
+                assumptions=["the wall-clock side of the timeout is an input of the model (context.WithTimeout is trusted)",
+                             "replies race with Result only through the registry and the 1-slot channel; both are atomic steps"]),
     "C18": dict(lean_modules=["HW.Props.C18"],
                 streams=[dict(name="members", pkg="cluster", test="TestVerifMembers", shrink_key="snaps", timeout=1500)],
                 rule="members: a real Cluster/Agent actor on a real engine (fake Remoter, stub provider); seeded random histories of 1-5 snapshots over a universe of 5 members x 3 kinds "
@@ -90,7 +97,8 @@ PROPS = {
     "C05": dict(lean_modules=["HW.Props.C05"], streams=[_PROC_STREAM], rule=_PROC_RULE, assumptions=_PROC_ASSUME, spec_relevant=r"FAIL:(\S*C05|harness)"),
     "C06": dict(lean_modules=["HW.Props.C06"], facts=True, streams=[_PROC_STREAM], rule=_PROC_RULE, assumptions=_PROC_ASSUME, spec_relevant=r"FAIL:(\S*C06|harness)"),
     "C07": dict(lean_modules=["HW.Props.C07"], streams=[_PROC_STREAM], rule=_PROC_RULE, assumptions=_PROC_ASSUME, spec_relevant=r"FAIL:(\S*C07|harness)"),
-    "C13": dict(lean_modules=["HW.Props.C13"], streams=[_PROC_STREAM], rule=_PROC_RULE, assumptions=_PROC_ASSUME, spec_relevant=r"FAIL:(\S*C13|harness)"),
+    "C13": dict(lean_modules=["HW.Props.C13"], streams=[_PROC_STREAM, dict(name="mwopts", pkg="actor", test="TestVerifMwOpts")],
+                rule=_PROC_RULE + " || mwopts: 1-3 real actors spawned with WithMiddleware(common...)+WithMiddleware(own) from one shared slice (0-3 common, 0-2 spare capacity), chain observed on a user message after all spawns (exhaustive over that grid)", assumptions=_PROC_ASSUME, spec_relevant=r"FAIL:(\S*C13|harness)"),
     "C01": dict(lean_modules=["HW.Props.C01"], facts=True, streams=[_SCHED_STREAM], rule=_SCHED_RULE, assumptions=_SCHED_ASSUME,
                 spec_relevant=r"FAIL:(C01|C03|harness)"),
     "C02": dict(lean_modules=["HW.Props.C02"], facts=True, streams=[_SCHED_STREAM, _PROC_STREAM], rule=_SCHED_RULE + " || " + _PROC_RULE,
@@ -266,5 +274,13 @@ MANIFEST_TEXT = {
         design_ref="DESIGN.md section 4, C20",
         note="Trusted: Lean kernel; distinct member hosts; zeroconf discovery, the ping timer and the event-stream child are not modelled.",
         technique="Lean 4 theorems over a list model of the provider's MemberSet + history-level differential correspondence",
+    ),
+    "C11": dict(
+        text="Machine-checked over every history of requests, replies (zero, one or several, to any id, any order) and Result calls: a value returned for a response was sent to that very response id (no cross-talk), "
+             "ids handed to new requests are never registered already, a timeout is reported only if the timer fired, and after Result the id is unregistered so a late reply is a dead letter. Tied to the code by histories on "
+             "the real Engine/Registry/Response with a blocked-sender watchdog and a collision count over 300k fresh ids.",
+        design_ref="DESIGN.md section 4, C11",
+        note="Trusted: Lean kernel; context.WithTimeout / the Go timer (the deadline is an input of the model); channel semantics of the 1-slot mailbox.",
+        technique="Lean 4 invariant over op sequences (buffered value was sent to that id; ids fresh) + history-level differential correspondence",
     ),
 }
